@@ -429,6 +429,20 @@ def reads_star(world, cls, ex_cache):
             acc |= direct.get(n, set())
             todo.extend(deps.get(n, ()))
         out[name] = acc
+    # lazy attribute -> lazies whose getters (transitively) read it
+    users = {name: set() for name in lazies}
+    for name in lazies:
+        seen, todo = set(), list(deps.get(name, ()))
+        while todo:
+            n = todo.pop()
+            if n in seen:
+                continue
+            seen.add(n)
+            todo.extend(deps.get(n, ()))
+        for n in seen:
+            if n in users:
+                users[n].add(name)
+    reads_star.users = users
     return out, lazies
 
 
@@ -441,6 +455,20 @@ def _ob(oid, prop, status, fi, text, detail='', model=None):
 # Cache entries that a mutator may re-seed after the reset, with the reason the seeded value equals
 # what the getter would compute (each is additionally checked by the bounded drivers).  Any other
 # `self.__dict__[lazy] = value` in a mutator is an unverified re-seeding and fails the obligation.
+# Cached attributes that are documented (or provably) unaffected when the cache they are derived
+# from is re-seeded with a rescaled value; every other derived cache must be dropped.
+SNAPSHOT_LAZIES = {
+    ('RadialProfile', 'gaussian_fit'):
+        'documented: "The Gaussian fit will not change if the profile normalization is changed '
+        'after performing the fit"',
+    ('RadialProfile', 'gaussian_profile'):
+        'documented: "The Gaussian profile will not change if the profile normalization is '
+        'changed after performing the fit"',
+    ('RadialProfile', 'gaussian_fwhm'): 'derived from the documented snapshot gaussian_fit',
+    ('RadialProfile', '_profile_nanmask'):
+        'isfinite(profile) is invariant under multiplication by a finite non-zero factor',
+}
+
 VERIFIED_SEEDS = {
     ('SegmentationImage', 'data.setter', 'labels'):
         'labels = _get_labels(value) computed from the new array just validated',
@@ -503,6 +531,26 @@ def coherence_obligations(world, prop, rel, cname, seeds_ok=()):
                     ok = True
             if not ok:
                 problems.append((w, sorted(dep)))
+        # re-seeding the cache of a lazy attribute changes what every lazy attribute derived
+        # from it would compute: those must be reset, popped or re-seeded as well
+        users = getattr(reads_star, 'users', {})
+        owners0 = {k.name for k in cls.mro(world)}
+        for i, ev0 in enumerate(seq):
+            if ev0.kind != 'seed' or ev0.field not in lazies:
+                continue
+            dep = {d for d in users.get(ev0.field, ())
+                   if not any((o, d) in SNAPSHOT_LAZIES for o in owners0)}
+            if not dep:
+                continue
+            handled = {e.field for e in seq if e.kind in ('pop', 'seed')}
+            later_reset = any(e.kind == 'reset_all' for e in seq[i + 1:])
+            # ... or were all dropped earlier and not recomputed before this store
+            earlier_reset = any(
+                e.kind == 'reset_all' and not any(
+                    x.kind == 'lazyread' and x.field in dep for x in seq[j + 1:i])
+                for j, e in enumerate(seq[:i]))
+            if not (dep <= handled or later_reset or earlier_reset):
+                problems.append((ev0, sorted(dep - handled)))
         seeded = sorted({e.field for e in seq if e.kind == 'seed' and e.field in lazies})
         mname = fi.name + ('.setter' if fi.is_setter else '')
         owners = {k.name for k in cls.mro(world)}
@@ -523,7 +571,10 @@ def coherence_obligations(world, prop, rel, cname, seeds_ok=()):
                    'bounded)' if seeded else ''))
         if problems:
             w, dep = problems[0]
-            if w.kind == 'seed':
+            if w.kind == 'seed' and dep and not str(dep[0]).startswith('unverified'):
+                detail = (f'{w.func}:{w.line} re-seeds the cache of {w.field!r} but leaves the '
+                          f'cached attributes {dep}, which are computed from it, stale')
+            elif w.kind == 'seed':
                 detail = (f'{w.func}:{w.line} stores a value into the cache of {w.field!r} '
                           'although no seed obligation shows it equals what the getter computes '
                           'on the new state (not in VERIFIED_SEEDS)')
@@ -901,6 +952,8 @@ PLAN = {
 }
 
 TRUSTED = [
+    'cached attributes exempt from re-seeding coherence (documented snapshots / scale-invariant): '
+    + '; '.join(f'{k[0]}.{k[1]} -- {v}' for k, v in SNAPSHOT_LAZIES.items()),
     'astropy lazyproperty caches its value in instance.__dict__[name] and the getter runs only '
     'when the name is absent',
     'guards that are not cache-membership / None tests are opaque boolean atoms (same source text '
